@@ -13,12 +13,18 @@
    "escapes the destination" test, makedirs) or is an oracle carried by the case (float repr,
    str() of tuples/lists, json.loads of the state point files that occur).
 
-   DEFECT LOCALISATION (what to change when a fix lands in /repo):
-     F7  (no uniqueness check for path=None/False)       : [path_function], branches PNone/PFalse
-     F15 (leaf/node check is order dependent)            : [check_dirs]
-     F6  (zip analyser compares with startswith)         : [zip_under]   (used for skipping AND member selection)
-     F18 (archive member directly at the archive root)   : [zip_read_sp] / [tar_read_sp] (path ++ "/" ++ FN)
-     F19 (exported paths may leave the target)           : [export_dir] via [resolve] (no containment test)
+   REPAIRED DEFECTS (the model follows the repaired code, /repo commits in brackets):
+     F6  [56f80f6] zip analyser: [zip_under] is "in or below, by whole components" (is_below)
+     F15 [fc0e7cc] [check_dirs] collects all nodes before testing the leaves
+     F7  [55c0c50] [path_function], branch PNone: uniqueness check like the other branches
+     F18 [c7ebc47] [zip_read_sp] / [tar_read_sp]: no separator for the archive root
+     F19/F20 [3dfa233] [export_paths]: refuses absolute / '..' paths, duplicates after normalisation,
+                       leaf/node check on the normalised paths; the copy still uses the raw strings
+   STILL OPEN:
+     F21  zip archives get files only: empty directories are lost            : [export_zip_step]
+     F20' a path that normalises to the export root ('.' or '') next to other jobs is accepted, and
+          the copy uses the un-normalised string (os.makedirs on 'a/x/../y' creates 'a/x')
+                                                                              : [export_paths], [fs_copytree_lex]
 *)
 From Coq Require Import String Ascii.
 From SV Require Import Base Json MD5 Canon.
@@ -474,11 +480,12 @@ Definition as_runtime {A} (r : res A) : res A :=
   match r with RExn _ => RExn ERuntimeError | _ => r end.
 
 (* _export_jobs up to and including [paths = {job.path: path_function(job) ...}]:
-   the destination of every job, in job order.
-   F7 lives here: PNone and PFalse perform no uniqueness check. *)
+   the destination of every job, in job order.  (PFalse: ids, no check needed.) *)
 Definition path_function (o : oracle) (jobs : list job) (p : pathspec) : res (list str) :=
   match p with
-  | PNone => rmap (fun j => auto_path o jobs [] [] (j_id j)) jobs
+  | PNone =>
+      do ds <- rmap (fun j => auto_path o jobs [] [] (j_id j)) jobs;
+      if has_dup ds then RExn ERuntimeError else ROk ds
   | PFalse => ROk (List.map j_id jobs)
   | PFmt segs =>
       do ds <- rmap (fun j => as_runtime (fmt_path o jobs segs j)) jobs;
@@ -488,24 +495,30 @@ Definition path_function (o : oracle) (jobs : list job) (p : pathspec) : res (li
       if has_dup ds then RExn ERuntimeError else ROk ds
   end.
 
-(* _check_directory_structure_validity, as written: a path is compared only with the proper
-   prefixes of the paths that come BEFORE it (F15). true = accepted *)
+(* _check_directory_structure_validity: all nodes (proper token prefixes of every path) are collected
+   first, then no path may be one of them. true = accepted *)
 Fixpoint str_prefixes_from (pre : list str) (toks : list str) : list str :=
   match toks with
   | [] => []
   | [_] => []
   | t :: r => joinw slash (pre ++ [t]) :: str_prefixes_from (pre ++ [t]) r
   end.
-Fixpoint check_dirs (check : list str) (paths : list str) : bool :=
-  match paths with
-  | [] => true
-  | d :: r => if str_mem d check then false
-              else check_dirs (str_prefixes_from [] (split 47 d) ++ check) r
-  end.
+Definition path_nodes (paths : list str) : list str :=
+  flat_map (fun d => str_prefixes_from [] (split 47 d)) paths.
+Definition check_dirs (paths : list str) : bool :=
+  negb (existsb (fun d => str_mem d (path_nodes paths)) paths).
+
+(* the checks _export_jobs makes on the normalised paths *)
+Definition norm_dst (d : str) : str := if is_empty d then d else normpath d.
+Definition leaves_target (n : str) : bool :=
+  starts_slash n || str_eqb n dotdot || startswith n (dotdot ++ slash).
 
 Definition export_paths (o : oracle) (jobs : list job) (p : pathspec) : res (list str) :=
   do ds <- path_function o jobs p;
-  if check_dirs [] ds then ROk ds else RExn ERuntimeError.
+  let ns := List.map norm_dst ds in
+  if existsb leaves_target ns then RExn ERuntimeError
+  else if has_dup ns then RExn ERuntimeError
+  else if check_dirs ns then ROk ds else RExn ERuntimeError.
 
 (* ------------------------------------------------------------------ writers *)
 Inductive tkind := KDir | KZip | KTar.
@@ -948,9 +961,8 @@ Fixpoint zip_read (ms : list (str * str)) (name : str) : option str :=      (* t
   | (n, c) :: r => match zip_read r name with Some c' => Some c' | None => if str_eqb n name then Some c else None end
   end.
 
-(* F18: for path = '' this asks for '/signac_statepoint.json', which no member is called *)
 Definition zip_read_sp (o : oracle) (ms : list (str * str)) (path : str) : res (option json) :=
-  match zip_read ms (path ++ slash ++ FN_SP) with
+  match zip_read ms (if is_empty path then FN_SP else path ++ slash ++ FN_SP) with
   | Some c => do v <- parse_file o c; ROk (Some v)
   | None => ROk None
   end.
@@ -970,8 +982,9 @@ Definition arch_schema_fn (o : oracle) (sch : schemaspec) (read : str -> res (op
       consistency sp spd
   end.
 
-(* F6: "below" is decided by str.startswith, for skipping and for selecting the members to copy *)
-Definition zip_under (name root : str) : bool := startswith name root.
+(* is_below(name, parent): in or below, by whole components *)
+Definition zip_under (name root : str) : bool :=
+  is_empty root || str_eqb name root || startswith name (root ++ slash).
 
 (* os.path.relpath(name, root) with a current directory deeper than any '..' that occurs *)
 Definition CWD : list str := [[1]; [2]; [3]; [4]; [5]; [6]].
@@ -1030,7 +1043,7 @@ Definition import_zip (o : oracle) (sch : schemaspec) (ms : list (str * str)) (d
       let r := fold_partial (fun d (m : str * json * str) =>
                    let '(root, _, id) := m in
                    fold_left (fun acc name => do g <- acc; zip_copy_one ms root id g name)
-                             (filter (fun n => zip_under n root) names) (ROk d)) maps dst0 in
+                             (filter (fun n => negb (str_eqb n root) && zip_under n root) names) (ROk d)) maps dst0 in
       (* an exception inside one executor leaves the files it had already written; the model keeps
          the state before that executor, which is exact for every case where no executor fails *)
       {| io_exn := p_exn r; io_ood := p_ood r || match p_exn r with Some _ => true | None => false end;
@@ -1047,9 +1060,8 @@ Fixpoint tar_get (ms : list (str * bool * str)) (name : str) : option (bool * st
                       end
   end.
 
-(* F18 again: _tarfile_path_join('', FN) = '/signac_statepoint.json' *)
 Definition tar_read_sp (o : oracle) (ms : list (str * bool * str)) (path : str) : res (option json) :=
-  match tar_get ms (rstrip_slash path ++ slash ++ FN_SP) with
+  match tar_get ms (let p := rstrip_slash path in if is_empty p then FN_SP else p ++ slash ++ FN_SP) with
   | Some (false, c) => do v <- parse_file o c; ROk (Some v)
   | Some (true, _) => ROod
   | None => ROk None
